@@ -599,8 +599,9 @@ func callSSA(i *interpreter, caller *frame, callpos token.Pos, fn *ssa.Function,
 		}
 		// make sure the owning package is completely built before running any of its
 		// code (another worker may be in the middle of building it); a function that is
-		// modelled by the engine is never run, so its package need not be built for it
-		if info.ext == nil {
+		// modelled by the engine is never run; package reflect, whose bodies go/ssa cannot
+		// all build, is not built for its modelled functions
+		if info.ext == nil || fn.Pkg == nil || fn.Pkg.Pkg.Path() != "reflect" {
 			ensureBuilt(fn)
 		}
 		pk := fn.Pkg
